@@ -1,0 +1,142 @@
+//! Read-only verification hooks.
+//!
+//! This module only exists when the crate is compiled with `--cfg rust_cc_verif`.
+//! Nothing in here changes the behaviour of the collector: the functions only read
+//! the internal state (counters, marks, buffer links, phase flags, thresholds) or
+//! forward the address of a fresh allocation to an observer installed by the
+//! verification harness.
+
+use alloc::vec::Vec;
+use core::sync::atomic::{AtomicUsize, Ordering};
+
+use crate::cc::CcBox;
+use crate::state::try_state;
+use crate::{Cc, Trace, POSSIBLE_CYCLES};
+
+/// The allocation is an object box (`CcBox<T>`).
+pub const KIND_BOX: u8 = 1;
+/// The allocation is a weak-pointer side record (`BoxedMetadata`).
+pub const KIND_META: u8 = 2;
+
+/// Observer of the crate's own allocations: `(kind, ptr, size, align)`.
+pub type AllocObserver = fn(u8, *mut u8, usize, usize);
+
+static OBSERVER: AtomicUsize = AtomicUsize::new(0);
+
+/// Installs the allocation observer (process-wide).
+pub fn set_alloc_observer(f: AllocObserver) {
+    OBSERVER.store(f as usize, Ordering::SeqCst);
+}
+
+#[inline]
+pub(crate) fn note_alloc(kind: u8, ptr: *mut u8, size: usize, align: usize) {
+    let raw = OBSERVER.load(Ordering::SeqCst);
+    if raw != 0 {
+        // SAFETY: only `set_alloc_observer` stores into OBSERVER, always a valid fn pointer
+        let f: AllocObserver = unsafe { core::mem::transmute::<usize, AllocObserver>(raw) };
+        f(kind, ptr, size, align);
+    }
+}
+
+/// Raw per-object collector state.
+#[derive(Copy, Clone, Debug, PartialEq, Eq)]
+pub struct Snapshot {
+    /// Strong counter (14 bits).
+    pub rc: u16,
+    /// Tracing counter (14 bits, all ones = dropped).
+    pub tc: u16,
+    /// 0 = non marked, 1 = in possible cycles, 2 = in list, 3 = in queue.
+    pub mark: u8,
+    /// Finalized bit.
+    pub finalized: bool,
+    /// Side-record bit.
+    pub has_meta: bool,
+    /// Tracing counter has the reserved "dropped" value.
+    pub dropped: bool,
+}
+
+/// Address of the box a `Cc` points to.
+#[inline]
+pub fn box_addr<T: ?Sized + Trace>(cc: &Cc<T>) -> usize {
+    cc.inner() as *const CcBox<T> as *const () as usize
+}
+
+/// Reads the counters of the box at `box_addr`.
+///
+/// # Safety
+/// `box_addr` must be the address of a box which is still allocated.
+pub unsafe fn snapshot(box_addr: usize) -> Snapshot {
+    let cm = (*(box_addr as *const CcBox<()>)).counter_marker();
+    let (tc_raw, c_raw) = cm.verif_raw();
+    Snapshot {
+        rc: c_raw & 0x3FFF,
+        tc: tc_raw & 0x3FFF,
+        mark: (tc_raw >> 14) as u8,
+        finalized: (c_raw & 0x4000) != 0,
+        has_meta: (c_raw & 0x8000) != 0,
+        dropped: (tc_raw & 0x3FFF) == 0x3FFF,
+    }
+}
+
+/// Walks the possible-cycles buffer: `(cached size, box addresses head first, links consistent)`.
+/// Returns `None` when the buffer thread-local is not accessible any more.
+pub fn buffer_walk() -> Option<(usize, Vec<usize>, bool)> {
+    POSSIBLE_CYCLES
+        .try_with(|pc| {
+            let mut out = Vec::new();
+            let mut links_ok = true;
+            let mut prev: Option<core::ptr::NonNull<CcBox<()>>> = None;
+            let mut cur = pc.first();
+            // The bound protects the walk against a corrupted (cyclic) list
+            let bound = pc.size().saturating_mul(2) + 64;
+            while let Some(ptr) = cur {
+                if out.len() > bound {
+                    links_ok = false;
+                    break;
+                }
+                unsafe {
+                    if *ptr.as_ref().get_prev() != prev {
+                        links_ok = false;
+                    }
+                    out.push(ptr.as_ptr() as usize);
+                    prev = Some(ptr);
+                    cur = *ptr.as_ref().get_next();
+                }
+            }
+            (pc.size(), out, links_ok)
+        })
+        .ok()
+}
+
+/// `(collecting, finalizing, dropping)`; `finalizing` is `false` when finalization is disabled.
+pub fn flags() -> Option<(bool, bool, bool)> {
+    try_state(|state| {
+        #[cfg(feature = "finalization")]
+        let finalizing = state.is_finalizing();
+        #[cfg(not(feature = "finalization"))]
+        let finalizing = false;
+        (state.is_collecting(), finalizing, state.is_dropping())
+    })
+    .ok()
+}
+
+/// Current byte threshold of the automatic collection policy.
+#[cfg(feature = "auto-collect")]
+pub fn bytes_threshold() -> Option<usize> {
+    crate::config::config(|config| config.verif_bytes_threshold()).ok()
+}
+
+/// `(weak counter, accessible)` of the side record of the box at `box_addr`, if it has one.
+///
+/// # Safety
+/// `box_addr` must be the address of a box which is still allocated.
+#[cfg(feature = "weak-ptrs")]
+pub unsafe fn weak_meta(box_addr: usize) -> Option<(u16, bool)> {
+    let cc_box = &*(box_addr as *const CcBox<()>);
+    if cc_box.counter_marker().has_allocated_for_metadata() {
+        let wcm = &cc_box.get_metadata_unchecked().as_ref().weak_counter_marker;
+        Some((wcm.counter(), wcm.is_accessible()))
+    } else {
+        None
+    }
+}
